@@ -34,7 +34,7 @@ Print Assumptions C04_failed_call_invisible.
    C01_allocate_succeeds; that C01's conclusions hold for the continued history is C01 itself.) *)
 Theorem C04_failed_call_returns_null :
   forall (c : cfg) (ops : list op) (o : op) (len : N) (e : env),
-    cfg_ok c = true -> policy_ok c (ops ++ [o]) -> api_ok c (ops ++ [o]) -> history_short (ops ++ [o]) ->
+    cfg_ok c = true -> policy_ok c (ops ++ [o]) -> api_ok c (ops ++ [o]) ->
     let s := run c ops in
     map_len c s o = Some len -> op_env o = Some e -> env_ret e = 0 ->
     st_of (step c s o) = s /\ res_of (step c s o) = RNull
